@@ -11,7 +11,11 @@ CLAIMS = {
     },
     'C16': {
         'text': 'Serial-number algebra proved in Lean on definitions regenerated from util.go on every run (both widths, all values); '
-                'translator validated against the Go functions on boundary and random inputs; component shift-invariance by theorem on the L0 models.',
+                'translator validated against the Go functions on boundary and random inputs; component shift-invariance by theorem on the L0 models. '
+                'Loss recovery (Props/C16rack.lean): every function of the RACK / RACK-timer / PTO / TLR model (Model/Rack.lean) and every run commutes with adding a '
+                'constant to all TSNs of state and inputs, marked TSNs shift along; the initial state shifts with the initial TSN (the RACK high-watermark starts at '
+                'tsn-1: defect D20, fixed). The same is observed on the implementation: every direct-drive sequence runs as a shift pair and the white-box RACK/PTO/TLR '
+                'snapshots (TSNs relative to the initial TSN) must be identical line by line.',
         'note': NOTE_COMMON,
         'technique': 'Lean 4 proof (bv_omega over BitVec) on translator-generated defs + differential replay',
     },
@@ -70,10 +74,29 @@ def _e2e(text):
 
 
 CLAIMS.update({
-    'C02': _e2e('After the fault prefix ends every reliable message is read and both sides report zero buffered/pending/in-flight bytes within heal + 600 s of virtual time (blackouts > 60 s, zero-window readers, 40 % loss, reordering).'),
+    'C02': dict(_e2e('After the fault prefix ends every reliable message is read and both sides report zero buffered/pending/in-flight bytes within heal + 600 s of virtual time (blackouts > 60 s, zero-window readers, 40 % loss, reordering). '
+        'LOSS-RECOVERY COMPONENT (proof, RACK / RACK timer / PTO / TLR gate only: Props/C02rack.lean on Model/Rack.lean, whose conditions and formulas are regenerated from onRackAfterSACK / onRackTimeoutLocked / '
+        'onPTOTimerLocked / schedulePTOAfterSendLocked / tlr*Locked / the RTT part of processSelectiveAck on every run, and which is compared with a white-box snapshot of the real Association after '
+        'every op of the direct-drive harness): RACK marks only outstanding original transmissions and only when a chunk sent more than the reordering window later was delivered '
+        '(C02_rack_marks_only_outstanding, C02_rack_loss_sound, C02_rack_never_marks_newest); the window stays in [0, SRTT] (C02_reownd_bounded); the RACK timer is armed whenever the list is non-empty, '
+        'with the exact deadline (C02_rack_timer_armed); send-time order of the list and "no list entry satisfies the loss test" are invariants of every admissible run (C02_rack_invariant); '
+        'PTO flags the last outstanding chunk when nothing is pending (C02_pto_probe_progress_partial); the TLR gate admits the first request of every gather and opens when the episode ends (C02_tlr_not_forever). '
+        'Two full-strength statements are FALSE of the code and proved false: the RACK timer callback never marks anything in any reachable state (C02_rack_timer_inert, witness '
+        'C02_rack_timer_overdue_witness, replayed from corpus/C02), and a PTO that finds data pending flags nothing and is not re-armed even when the window blocks new data '
+        '(C02_pto_no_probe_when_pending, replayed from corpus/C02); in both cases recovery falls back to the next SACK or T3, which is why the e2e liveness predicate still holds. '
+        'These component theorems say nothing about end-to-end liveness.'),
+        technique='Lean 4 proof (walk lemmas, invariant + induction over all operation lists of the loss-recovery component, decide on witnesses) on translator-generated conditions + white-box model/implementation differential replay; system level: seeded fault-schedule exploration in virtual time'),
+    'C06': dict(_e2e('SYSTEM LEVEL (exploration, synctest e2e + PolicySpec on the wire): unordered / partially reliable streams: reads must match distinct written messages (subsequence for ordered), DCEP always delivered in order; transmissions per chunk within the policy (known finding D14). '
+        'COMPONENT LEVEL (supporting theorems, one clause: "abandoned chunks are not skipped by one of the retransmission paths"): Props/C06rack.lean on Model/Rack.lean - RACK on a SACK, the RACK timer, the PTO and T3 flag '
+        'only chunks that are neither acknowledged nor abandoned and change nothing else in the chunk store (C06_rack_skips_abandoned, C06_rack_dead_chunks_untouched, C06_rack_sack_marks_outstanding, '
+        'C06_t3_skips_abandoned); model tied to the code by white-box snapshots after every op, including sequences with limited-retransmission and timed streams. '
+        'NOT proved: reassembly integrity for unordered delivery, at-most-once, the N+1 transmission bound (C06_* of DESIGN §5); the claimed level therefore stays exploration, the theorems are supporting.'),
+        technique='Lean 4 proof (characterisation of the marking walk, case analysis of the PTO) + white-box model/implementation differential replay; system level: seeded exploration + Lean predicates'),
     'C07': _e2e('Partial-reliability scenarios: a message that was not delivered must be one the sender told the peer to skip (stream entry or cumulative point of a FORWARD-TSN / I-FORWARD-TSN); everything else is delivered.'),
     'C08': _e2e('Graceful shutdown with data still queued, one-sided and crossed, under faults: Shutdown()==nil implies all earlier writes read in order before EOF; both sides closed; late writes/OpenStream rejected and never delivered.'),
     'C09': _e2e('Close / Abort / transport read failure / write failure injected right after the k-th wire event of runs that go through handshake, transfer, stream reset and shutdown, with callers parked in Connect, Accept, Read, Write, Shutdown: everything returns, no goroutine of the package survives, no write to a closed conn, Close idempotent, ABORT cause reaches the peer.'),
+    'C14': _e2e('Stream close by the writer then by the reader, re-open of the same identifier for up to 3 incarnations, several streams at once, under loss/duplication/reordering of DATA and RECONFIG: all messages then EOF per incarnation.'),
+    'C18': _e2e('API-contract programs: oversize / empty / closed-stream writes, blocking writes with deadlines, short read buffers (message stays available), read deadlines expiring with no data; rejected calls are invisible in the peer read history; blocking-write gate checked white-box.'),
 })
 
 CLAIMS.update({
@@ -154,7 +177,9 @@ SENDER_NOTE = (NOTE_COMMON + ' The L0 model Model/Sender.lean is hand-written (s
                'callback count) and the DATA packets of every gather (lengths, TSNs, fragments) are compared with the implementation. '
                'ORACLES (theorems quantify over all values; the harness records what the real code decided): the TLR burst budget tlrAllowSendLocked '
                '(arbitrary state machine), which pending chunk peek() returns (the pending queue is modelled elsewhere), RACK / PTO loss marks, the number of '
-               'T3 expiries while the clock advances. Not modelled: blockWrite, SHUTDOWN cumulative ack, RTT/RACK bookkeeping, timers, goroutines.')
+               'T3 expiries while the clock advances. The budget and the marks are no longer free: Model/Rack.lean computes them and Driver/Rack.lean compares '
+               '(white-box rk line after every op). Not modelled in the sender model: blockWrite, SHUTDOWN cumulative ack, goroutines; RTT/RACK bookkeeping and the '
+               'RACK/PTO deadlines live in Model/Rack.lean, T3 in the timer model of C19.')
 
 CLAIMS.update({
     'C10': {
@@ -167,6 +192,10 @@ CLAIMS.update({
                 'common header; packetize emits fragments of 1..maxPayloadSize bytes adding up to the message), C10_cwnd_floor (MTU <= cwnd), C10_loss_response '
                 '(T3: ssthresh = max(cwnd/2, 4 MTU), cwnd = max(MTU, MinCwnd); entry to fast recovery: same ssthresh formula, cwnd = max(ssthresh, MinCwnd), once), '
                 'C10_retransmit_window (T3 retransmissions of one gather carry at most min(cwnd, rwnd) user bytes, or are the single probe chunk). '
+                'TLR burst budget (Props/C10tlr.lean, on tlrAllowSendLocked assembled from generated expression sites and proved equal to the gate of the sender model): per gather, '
+                '4 x admitted estimated bytes <= max(budget, 4 x first admitted request) (C10_tlr_budget_bound; <= max(units/4, 1) MTUs when every request is <= MTU), burst units stay in [8,16] / [5,8] '
+                'quarter-MTUs in every reachable state (C10_tlr_units_bounded), the episode ends exactly when the cumulative point reaches the highest TSN outstanding at its start (C10_tlr_finish, '
+                'C10_tlr_begin_end); the budget is per gather, not per RTT phase (C10_tlr_budget_is_per_gather). The tlr/bud oracle values of every gather are checked against the model. '
                 'Plus the executable predicate P_C10 on the implementation outputs after every op, and e2e transfer runs.',
         'note': SENDER_NOTE + ' "Cut" is formalised as the RFC 4960 7.2.3 formula (a literal "never larger than before" is false by design below 4 MTU). Loss signals = T3 expiry and '
                 'third miss indication outside fast recovery; RACK/PTO marks do not touch cwnd in this implementation (oracle inputs). Window theorems assume the ghost flag '
@@ -384,6 +413,34 @@ CLAIMS['C01']['text'] = CLAIMS['C01']['text'].replace(
     'wire content, FORWARD-TSN / reset in the prefix theorem (reliable streams only), and the two-endpoint NetSys invariant (C01_netsys_prefix). '
     'KNOWN FINDING D24 (replayed every run, witness corpus/C01/known/d24_forward_tsn_after_reset.ops, decided on the model: C07_forward_after_reset_witness): a FORWARD-TSN / I-FORWARD-TSN entry that stems from an abandoned message of a stream incarnation the receiver has ALREADY reset (the sender\'s cumulative ack lags, createForwardTSN lists every abandoned chunk above it) re-creates the stream and moves the new incarnation\'s cursor: the first messages written after the reset are acknowledged and dropped. The predicates report exactly this situation under the class [D24:forward after reset]; every other acknowledged-and-not-kept chunk still fails the check. ')
 CLAIMS['C01']['note'] += RECV_NOTE
+# NetSys composition (agent-netsys). The receiver's replace above no longer matches the tail of the C01 text; replace the real tail.
+_C01_TAIL = ('NOT covered yet: duplicate filtering at association level (C01_dedup, C05 is the component theorem), and the composed end-to-end NetSys '
+             'invariant (C01_netsys_prefix) — system level stays exploration.')
+_C01_RECV = ('RECEIVE-SIDE SYSTEM THEOREM (Props/C01recv.lean, receive-half model of the association): C01_dedup - in every reachable state (any op list) a chunk handed to a stream has a TSN inside the '
+    'tracking window whose absolute index was never accepted before and counts as accepted ever after: a TSN reaches pushWithError at most once per association; C01_receiver_prefix / '
+    'C01_receiver_prefix_idata - for ANY arrival history of chunks drawn from the fragment universe of a message list per stream (any order, duplication, loss, bundling; any number of streams '
+    'sharing the TSN space; initial TSN anywhere incl. the wrap; fewer than 2^31 TSNs in all), interleaved with reads of any buffer size, accept/open/gather/ticks/state changes, the successful '
+    'reads on each ordered stream form a prefix of its messages - composition of C01_dedup with the reassembly refinements, under the 2^15 (SSN) / 2^31 (MID) window hypothesis (D15). ')
+_C01_NET = ('COMPOSITION (Props/C01net.lean; Model/NetSys.lean = the Sender model + the Receiver model + the HISTORY of every DATA chunk any gather put on the wire; `deliver` hands the receiver any '
+    'history chunks, any number of times, in any order and bundling, never = loss; the SACKs, burst budget, loss marks and timer inputs of the sender are ARBITRARY - safety does not depend on '
+    'truthful SACKs; the payload bytes are a ghost function of the message identity of which the sender model sees the length only; toWire = header decode as chunkPayloadData.unmarshal + the byte slice '
+    '[i*mp, i*mp+len) of the written payload): C01_netsys_prefix_idata (I-DATA, ANY pending-queue selection oracle) and C01_netsys_prefix (DATA; hypothesis SelContig, decidable on the run: the '
+    'order in which chunks get their TSNs keeps the fragments of a message together and serves each stream FIFO - exactly what C17_contiguous + C17_fragment_order prove of the real pending queue) - '
+    'for EVERY NetSys run over reliable ordered streams (every openS ordered with relType 0, no unreg), fewer than 2^31 chunks written in all (each gets at most one TSN), and the D15 window stated on '
+    'the run (messages written on the stream at most 2^31 / 2^15 ahead of the messages read on it at every step; proved to imply the receiver theorem\'s hwin), the (PPI, bytes) the receiving '
+    'application has read on each stream are a PREFIX of the (PPI, bytes) of the accepted writes on it, in write order. New sender lemmas (all runs, any SACKs/oracles, no configuration hypothesis): '
+    'C01_wire_tsn_stable - the j-th chunk moved to in flight gets TSN t0+j, every occurrence of a chunk on the wire (first transmission, T3/RACK/PTO/fast retransmission) carries the TSN and fragment '
+    'identity of a moved chunk, fragment identities are pairwise distinct: one fragment, one TSN; C01_ssn_assignment - the k-th accepted write on a stream gets SSN k mod 2^16 / MID k mod 2^32, '
+    'rejected writes (incl. the rolled-back not-established one) consume none. Tests by evaluation: two streams, three messages across the 2^32 TSN wrap, interleaved selection, loss + T3 '
+    'retransmission, duplicates, out-of-order delivery. STILL EXPLORATION at system level: liveness (C02); the byte copy in packetize (toWire ASSUMES the chunk carries that slice of the written '
+    'buffer; observed by the e2e content hashes only); unordered / partially reliable / reset traffic (FORWARD-TSN and stream reset are not operations of NetSys; that reliable streams never '
+    'cause a FORWARD-TSN is C07_reliable_never_abandoned + C07_skip_only_abandoned on the sender model, not re-proved on NetSys); the composition of the selection oracle with the PendQ model '
+    '(SelContig is a hypothesis here and a theorem there); handshake, shutdown and teardown around the transfer.')
+if _C01_TAIL in CLAIMS['C01']['text']:
+    CLAIMS['C01']['text'] = CLAIMS['C01']['text'].replace(_C01_TAIL, _C01_RECV + _C01_NET)
+else:
+    CLAIMS['C01']['text'] += ' ' + _C01_NET
+CLAIMS['C01']['technique'] += ' + composition theorem over a two-endpoint model with a packet-history network (NetSys)'
 if 'C03' in CLAIMS:
     CLAIMS['C03']['text'] += (' RECEIVE HALF (Props/C03recv.lean): C03_recv_total - no op list drives the receive-half model into its explicit panic outcome (the two empty-slice accesses of '
         'pushWithError are unreachable: C03_reasm_push_total); C03_stale_fwdtsn_noop / C03_stale_ifwdtsn_noop - a FORWARD-TSN at or behind the cumulative point changes nothing but forces an '
@@ -416,6 +473,57 @@ CLAIMS.update({
                 'open, no marker queued, every request naming it performed); pion offers the application no signal for that — see the observation in DESIGN §5 C14 (crossed close + early re-open loses data).',
         'technique': 'Lean 4 proof (local send/receive invariants, cross-endpoint invariant over packet histories, incarnation bookkeeping; induction over arbitrary op lists) + '
                      'model/implementation differential replay of two direct-driven real Associations + executable predicate on implementation outputs + e2e exploration',
+    },
+})
+
+CONC_NOTE = (NOTE_COMMON + ' What is NOT and cannot be proved here: goroutine scheduling, sync.Mutex / sync.Cond / channel / sync.Once semantics (assumed as specified by Go), '
+             'wall-clock bounds, and - for C20 - DATA-RACE FREEDOM, which is a property of the Go memory model and cannot be expressed by an executable Lean model. '
+             'Real interleavings are SAMPLED (scenarios under testing/synctest on one P, reproducible from the seed; thorough tier: the same programs natively under the race detector, '
+             'whose clean verdict is supporting evidence only), never enumerated.')
+
+CLAIMS.update({
+    'C09': {
+        'text': 'MODEL LEVEL (proved): Lean theorems over the transition system Model/Teardown.lean - readLoop, writeLoop, timerLoop, a timer callback, the constructor call and a LIST of API '
+                'callers of ARBITRARY length (blocked reads per stream, blocking writes, AcceptStream, Shutdown, Close, Abort) over the transport, closeWriteLoopCh, readLoopCloseCh, acceptCh, '
+                'abortSentCh, awakeWriteLoopCh, the handshake rendez-vous, writeNotify, the per-stream condition variable and a.lock - for every reachable state, every interleaving, every finite '
+                'behaviour of the environment (packets, timer expiries, new calls, transport read/write failure, context cancellation). The choreography is NOT typed in: it is read off '
+                'translator facts regenerated on every run (ordered statements of the deferred block of readLoop, of close(), Close() and Abort(); the arms of the selects of completeHandshake, '
+                'writeLoop, timerLoop, Shutdown, both constructors and the blocking-write wait; Broadcast vs Signal in unregisterStream / onInboundStreamReset; closeNetConn on a write error) and '
+                'C09_choreography_matches_code decides that it is the one the proofs are about. Theorems: C09_no_stuck_state (teardown set off => everything finished or some process of the package '
+                'can move without the environment), C09_terminates (a measure strictly decreased by every step; every maximal run ends with all goroutines stopped and all calls returned), '
+                'C09_results / C09_results_constructor (what each blocked call returns), C09_shutdown_interrupted (the completion flag is raised only by the peer\'s SHUTDOWN-ACK / SHUTDOWN-COMPLETE; a waiting Shutdown that returns without it returns an error), C09_no_write_after_close (at most one Write after Close, it fails and ends writeLoop), C09_terminal_error_sticky (once the streams are unregistered no step and no late read-deadline expiry changes what a read returns; tied to the `if s.readErr == nil` guard of the deadline helper), '
+                'C09_close_idempotent (netConn.Close at most once; Close on a closed association changes nothing), C09_abort_carries_cause (the stored cause is what goes on the wire; an inbound '
+                'ABORT makes its cause the close error, which never changes and is what every released reader of a non-reset stream gets). SYSTEM LEVEL (sampled): Close / several concurrent '
+                'Close+Abort / transport read failure / write failure / context cancellation (also exactly while the COOKIE-ACK is being processed) injected after the k-th wire event of runs '
+                'through handshake, transfer, stream reset and shutdown, with callers parked in Connect, Accept, Read (1-4 readers on the SAME stream; an IDLE reader whose long read deadline expires only after the teardown and who then sets a new deadline and reads), Write, Shutdown: every goroutine of the '
+                'package must be gone when the synctest bubble ends (a real-time watchdog catches deadlocks that involve a mutex), no write after close, repeated Close harmless, ABORT cause at the peer.',
+        'note': CONC_NOTE + ' Model assumptions: one constructor call per association, API calls only after it returned, completeHandshake attempted at most once (the code can attempt it twice when '
+                'the last T1 expiry races with the answer), stream identifiers not reused after a reset; "promptly" = without further help from the environment. A critical section that contains '
+                'no blocking operation is one atomic step (C20_interleaving_refines_sequence). FIXED FINDING D22 / K09-shutdown-nil (/repo 52b27be): a waiting Shutdown returned nil whenever closeWriteLoopCh closed; it now returns nil only after the peer\'s '
+                'SHUTDOWN-ACK / SHUTDOWN-COMPLETE - modelled (C09_shutdown_interrupted, C09_shutdown_error_regression) and demanded by the e2e predicate. KNOWN FINDING (witness replayed every run): '
+                'K09-read-deadline-goroutine - the helper goroutine of SetReadDeadline outlives Close until its deadline.',
+        'technique': 'Lean 4 proof (inductive invariant + progress argument + termination measure over a parametric transition system, arbitrary number of callers) on a choreography read off '
+                     'translator facts by decide + seeded teardown injection on real association pairs in virtual time with Lean-defined predicates',
+    },
+    'C20': {
+        'text': 'PARTIAL BY NATURE. Proved / decided in Lean on facts the translator derives from the source on every run (event tree of every function, abstract interpretation of the lock state '
+                'along every path incl. defers and the two drop-and-reacquire idioms, entry contexts propagated over the call graph with interface calls resolved by method set): '
+                'C20_lock_graph_acyclic (7 mutexes, no vertex reaches itself; Association.lock -> Stream.lock present, its inverse absent), C20_lock_discipline (no unbalanced path, no unlock of an '
+                'unheld mutex, with the one documented conditional lock in WriteSCTP), C20_callbacks_unlocked (every call of a function VALUE is made with an empty lock set; the one exception, the '
+                'scheduler factory plug-in, is listed), C20_steps_atomic (every chunk handler is entered with a.lock held and never touches it, handleChunk / gatherOutbound / every timer callback / '
+                'every exported method is ONE critical section per mutex, except the write path, whose three sections are listed; state is written outside a.lock only as the terminal value), '
+                'C20_no_reentrant_timer (observers are called with no mutex held; nothing is ever acquired under a timer mutex), C20_blocking_under_lock (exactly three operations can block with a '
+                'mutex held), and the generic C20_interleaving_refines_sequence (any interleaving of acquire / micro-operation / release of threads that touch shared state only under ONE mutex equals '
+                'the sequential run of the sections in acquisition order - which is how the operation-list theorems of the other properties apply to concurrent callers). SAMPLED: storms of concurrent '
+                'API calls on both associations (one writer per stream; deadline / reliability / threshold changes, buffered-amount queries, a low-threshold callback that re-enters the API, '
+                'OpenStream of open streams, Stream.Close from another goroutine, then Shutdown / Close / Abort from several goroutines at a random instant) with the delivery predicates on; '
+                'completion = no deadlock. Thorough tier: the storm and teardown programs natively under -race.',
+        'note': CONC_NOTE + ' The lock analysis is syntactic and intra-package: mutexes are identified by (receiver type, field), so all streams share one node; sync/atomic and unsynchronised accesses '
+                'are invisible to it. The linearisation theorem is about one mutex; WriteSCTP is three sections, and that is observable: KNOWN FINDING K20-write-close-race (Close from another '
+                'goroutine between the state test and the enqueue of a write: the write reports success and is never delivered). Also reported: the read-deadline replacement race '
+                '(corpus/C20/read_deadline_race.txt, timing dependent). Bubble storms run on one P (cooperative, reproducible); with several Ps go1.26 synctest bubbles occasionally stall.',
+        'technique': 'decide on translator-derived concurrency facts (lock-order graph, callback / entry-point / blocking sites) + a Lean refinement theorem (interleaved critical sections = sequence '
+                     'of steps) + seeded concurrent-API storms under testing/synctest + race-detector runs as supporting evidence',
     },
 })
 
